@@ -546,7 +546,9 @@ impl Check for C04 {
         let forms = it.next().unwrap_or("");
         let src = it.next().unwrap_or("").split(':').next().unwrap_or("");
         let src = if src == "vector-literal" { "vector-literal" } else if src.starts_with("vector") { "vector" } else { src };
-        supported.contains(&format!("{}|{}|{}|{}", sc, forms, op, src))
+        // a scalar held by a variable is the same source as the scalar written as a literal: if the literal spelling is accepted
+        // through this target form and operator, rejecting the variable spelling is a violation, not an unsupported combination
+        supported.contains(&format!("{}|{}|{}|{}", sc, forms, op, src)) || (src == "scalar" && supported.contains(&format!("{}|{}|{}|scalar-literal", sc, forms, op)))
       } else { true }
     });
     rep.cov("valid_rejections_on_unsupported_target_forms", json!(before - rep.out.failures.len()));
